@@ -101,6 +101,12 @@ CHECKS["C02"] = dict(
    note="Negative probes never depend on engine configuration (no trailing-slash, case, HEAD/OPTIONS, redirect probes; no extra segment below a trailing {param}: echo's last :param is greedy). Only projects whose spec-and-routes run exits 0 are probed.",
    ref="DESIGN.md §5 C02, Appendix B")
 
+CHECKS["C03"] = dict(
+   technique="trace-checking monitor over generated routers: the instrumented authorization callback logs every consultation and decision (policy scripted per request through a header), controller bodies / before-operation and input-validation middlewares / request-body reads log events with a global sequence number; an offline checker requires approvals of one whole effective alternative before any of them; thorough tier replays from 8 goroutines under the race detector",
+   text="Runtime monitoring of real generated routers on the five engines: 8 (thorough 80) projects with method-, controller- and default-level security (1-3 alternatives, repeated schemes, 0-3 scopes); per route every scripted callback behaviour (approve all, refuse all with 401/418/custom payload, refuse exactly alternative i, approve only alternative i, different statuses per alternative) x (valid request, missing required parameter, unconvertible value, malformed body): ~3400 request evaluations per quick run over ~360 distinct (engine, #alternatives, authorised?, invalid?, policy shape) cells. Exploration only.",
+   note="The effective security of a route is computed from the project descriptor (method overrides controller overrides default). body_read is not observable under fiber's app.Test; which refusal status wins among several refusing alternatives is judged by membership only.",
+   ref="DESIGN.md §5 C03, Appendix B")
+
 NOT_YET = {
 }
 ALL = ["C%02d" % i for i in range(1, 21)]
